@@ -565,9 +565,9 @@ class ttensor:
         new_u = self._real_factors()
         for i, dim in enumerate(dims):
             if transpose:
-                new_u[dim] = matrix[vidx[i]].transpose().dot(new_u[dim])
+                new_u[dim] = matrix[vidx[i]].transpose() @ new_u[dim]
             else:
-                new_u[dim] = matrix[vidx[i]].dot(new_u[dim])
+                new_u[dim] = matrix[vidx[i]] @ new_u[dim]
 
         return ttensor(self.core, new_u)
 
